@@ -475,10 +475,11 @@ fn join_case(front: Front, reg: Reg, dl_fixed: Option<u8>, rng: &mut Prng, col: 
                 if s.region.channels != snap_before.region.channels || (s.region.channel_mask != snap_before.region.channel_mask && !reg.fixed()) {
                     col.violation(&format!("C11|cflist|foreign-type-applied|{}|{}", cf_class, if reg.fixed() { "fixed" } else { "dynamic" }), "a CFList of a type that does not apply to the plan changed the channel plan", json!({"ctx": ctx("cf")}));
                 }
-                // (the statement does not say whether a join returns the mask to the default plan:
-                // both "as before" and "every channel enabled" are accepted)
-                if reg.fixed() && s.region.channel_mask != snap_before.region.channel_mask && s.region.channel_mask != [0xFF; 9] {
-                    col.violation(&format!("C11|cflist|foreign-type-changed-mask|{}", cf_class), "a CFList that does not apply changed the channel mask", json!({"ctx": ctx("cf")}));
+                // a join starts a new session from the region's default plan: with no applicable
+                // channel list every channel of a fixed plan is enabled again, whatever mask the
+                // previous session was left with
+                if reg.fixed() && s.region.channel_mask != [0xFF; 9] {
+                    col.violation(&format!("C11|cflist|foreign-type-changed-mask|{}", cf_class), "after a join without applicable channel list a fixed plan is not back at its default mask (a list that does not apply changed it, or the previous session's mask survived)", json!({"ctx": ctx("cf")}));
                 }
             }
         }
